@@ -139,9 +139,9 @@ C04_Cers ==
 Wraps == {"none", "mutex", "rwlock", "arcmutex", "arcrwlock"}
 C11_Cfgs == { [BaseCfg EXCEPT !.disc = d, !.wrap = w] : d \in {"full", "nondisc", "forced"}, w \in Wraps }
 C11_Stores == { << <<>> >> }
-C11_Cers == { << Cer("ctap2", "mc", [BaseReq EXCEPT !.rk = rk], BaseEnv),
+C11_Cers == { << Cer("ctap2", "mc", [BaseReq EXCEPT !.rk = rk, !.user = u], BaseEnv),
                  Cer("ctap2", "ga", [BaseReq EXCEPT !.up = up], [BaseEnv EXCEPT !.uv = UvOk(p, v)]) >> :
-                rk \in BOOLEAN, up \in BOOLEAN, p \in BOOLEAN, v \in BOOLEAN }
+                rk \in BOOLEAN, up \in BOOLEAN, p \in BOOLEAN, v \in BOOLEAN, u \in {"u1", "u0", "u64"} }
 
 -----------------------------------------------------------------------------
 (* C07: every store call failing (singly and combined), every cancel point  *)
@@ -317,6 +317,16 @@ C11c_Cers ==
     { << Cer("client", "mc", [WithDom(BaseCReq, d) EXCEPT !.residentKey = rk, !.credProps = cp], BaseEnv),
          Cer("client", "ga", WithDom(BaseCReq, d), BaseEnv) >> :
         d \in {DomQ1, DomQ2}, rk \in {"discouraged", "required"}, cp \in {"absent", "false", "true"} }
+    \cup
+    \* user handles of zero and of 64 bytes
+    { << Cer("client", "mc", [BaseCReq EXCEPT !.residentKey = rk, !.credProps = "true", !.user = u], BaseEnv),
+         Cer("client", "ga", BaseCReq, BaseEnv) >> : rk \in {"discouraged", "required"}, u \in {"u0", "u64"} }
+    \cup
+    \* the store refuses the save (key store full, another status) at the first or at a later attempt: what the client
+    \* reports afterwards still describes what is stored
+    { << Cer("client", "mc", [BaseCReq EXCEPT !.residentKey = rk, !.credProps = "true", !.user = "u2"], [BaseEnv EXCEPT !.faults = f]),
+         Cer("client", "ga", BaseCReq, BaseEnv) >> :
+        rk \in {"preferred", "required", "discouraged"}, f \in {<<40, 0, 0>>, <<0, 40, 0>>, <<1, 0, 0>>} }
     \cup
     \* the whole authenticatorSelection member absent: no resident key is asked for
     { << Cer("client", "mc", [BaseCReq EXCEPT !.authSel = FALSE, !.credProps = cp], BaseEnv),
